@@ -20,9 +20,13 @@
      8 the code after the with block: `if retry > self.max_retries: raise RetryError`,
        `return rx_data[6:-1]` - it reads locals only, so it changes nothing shared, but
        it is a step of its own: other threads may run between the release and the return.
-   Not modelled: bridged targets (target.routing -> one more unlocked read of
-   next_sequence_number, decode_bridged_message), the byte layout of the datagrams
-   (C03/C05), logging. *)
+   Bridged targets (target.routing): one more unlocked read of next_sequence_number
+   (the `seq` argument of encode_bridged_message) after step 3, and in step 6 a frame whose
+   command is Send Message is an acknowledge: decode_bridged_message strips it to nothing
+   and the loop continues WITHOUT counting a retry; the forwarded reply comes in the next
+   datagram.  The acknowledge's own rqSeq is not looked at by the code and not modelled.
+   Not modelled: a forwarded reply embedded in a Send Message response, the byte layout
+   of the datagrams (C03/C05), logging. *)
 From Coq Require Import NArith List Bool.
 From PyIpmi Require Import Lib.Res.
 Import ListNotations.
@@ -31,7 +35,10 @@ Open Scope N_scope.
 Definition tid := nat.
 
 (* what the caller asks for: netfn / cmdid (the payload does not influence the filter) *)
-Record treq := mkTReq { q_netfn : N; q_cmd : N }.
+(* q_depth = number of Send Message wrappers (len(target.routing) - 1 when the target is
+   bridged, 0 for a direct target).  Requests whose own command is Send Message (0x34) are
+   outside the model: the code would treat their reply as a bridging acknowledge. *)
+Record treq := mkTReq { q_netfn : N; q_cmd : N; q_depth : nat }.
 
 (* a reply datagram, reduced to the fields rx_filter compares by default (rq_seq,
    netfn, cmdid) plus its payload, which the reference BMC makes unique: the number
@@ -56,7 +63,8 @@ Inductive pc :=
 | PSend (h : N) (retry : nat)              (* lock held; at `self._send_ipmi_msg(tx_data)` *)
 | PRecv (h : N) (retry rr : nat)           (* lock held; in the inner while, rr = received_retry *)
 | PRel (h : N) (o : res frame)             (* lock held; leaving the with block with this outcome *)
-| PRet (h : N) (o : res frame).            (* lock released; at the code after the with block *)
+| PRet (h : N) (o : res frame)             (* lock released; at the code after the with block *)
+| PSeq (h : N).                            (* bridged target, after step 3: next the read for `seq=` *)
 
 Record thread := mkT { t_reqs : list treq;           (* the requests this thread issues, in order *)
                        t_k : nat;                    (* index of the current / next request *)
@@ -100,10 +108,16 @@ Definition stale_frame (n h : N) (q : treq) : frame :=
   mkFrame (stale_seq h) (N.lor (q_netfn q) 1) (q_cmd q) (n + 100).
 Definition bmc_frames (c : cfg) (n h : N) (q : treq) : list frame :=
   (if is_stale c n then [stale_frame n h q] else []) ++ [bmc_reply n h q].
+(* a bridged request: the BMC first acknowledges each Send Message wrapper (a frame whose
+   command is Send Message, 0x34), then forwards the reply *)
+Definition CMD_SEND_MESSAGE : N := 0x34.
+Definition ack_frame (n : N) : frame := mkFrame 0 7 CMD_SEND_MESSAGE n.
+Definition is_ack (r : frame) : bool := p_cmd r =? CMD_SEND_MESSAGE.
+Definition cmd_ok (q : treq) : Prop := q_cmd q <> CMD_SEND_MESSAGE.
 (* what reaches the socket: nothing when the reply to datagram n is lost *)
 Definition is_lost (c : cfg) (n : N) : bool := existsb (N.eqb n) (c_lose c).
 Definition bmc_delivers (c : cfg) (n h : N) (q : treq) : list frame :=
-  if is_lost c n then [] else bmc_frames c n h q.
+  if is_lost c n then [] else repeat (ack_frame n) (q_depth q) ++ bmc_frames c n h q.
 
 (* rx_filter(header, rx_data, rq_seq=True) on the abstract frame *)
 Definition rx_match (h : N) (q : treq) (r : frame) : bool :=
@@ -129,13 +143,16 @@ Definition set_lock (g : gstate) (o : option tid) : gstate :=
   mkG (g_nsn g) o (g_sseq g) (g_q g) (g_inbox g) (g_nrx g) (g_wire g) (g_thr g).
 
 (* the tail of one iteration of the inner while loop, after rx_data was obtained:
+     if rx_data[5] == CMDID_SEND_MESSAGE: rx_data = decode_bridged_message(rx_data)
+         if not rx_data: continue          # the acknowledge; not counted
      received = rx_filter(header, rx_data, ...)
      # a frame that does not answer this request is dropped
      received_retry += 1
    then the loop condition / `if not received: raise RetryError` / break *)
 Definition after_rx (c : cfg) (g : gstate) (t : tid) (th : thread) (q : treq)
            (h : N) (retry rr : nat) (rx : frame) : gstate :=
-  if rx_match h q rx then set_thr g t (set_pc th (PRel h (Ok rx)))
+  if is_ack rx then set_thr g t (set_pc th (PRecv h retry rr))   (* `if not rx_data: continue` *)
+  else if rx_match h q rx then set_thr g t (set_pc th (PRel h (Ok rx)))
   else if Nat.leb (S rr) (c_max_retries c) then set_thr g t (set_pc th (PRecv h retry (S rr)))
   else set_thr g t (set_pc th (PRel h (Err RetryError))).
 
@@ -155,7 +172,14 @@ Definition step_l (c : cfg) (g : gstate) (t : tid) : option (label * gstate) :=
           let v := (r + 1) mod 64 in
           Some (LWrite v, set_thr (set_nsn g v) t (set_pc th PHdr))
       | PHdr =>    (* header.rq_seq = self.next_sequence_number *)
-          Some (LHdr (g_nsn g), set_thr g t (set_pc th (PAcq (g_nsn g))))
+          Some (LHdr (g_nsn g),
+                set_thr g t (set_pc th (match q_depth q with
+                                        | O => PAcq (g_nsn g)
+                                        | S _ => PSeq (g_nsn g)     (* if target.routing: *)
+                                        end)))
+      | PSeq h =>  (* encode_bridged_message(..., self.next_sequence_number): the value only
+                      goes into the Send Message wrapper, which nobody compares *)
+          Some (LHdr (g_nsn g), set_thr g t (set_pc th (PAcq h)))
       | PAcq h =>  (* with self.transaction_lock: ; retry = 0 *)
           match g_lock g with
           | None => Some (LAcq, set_thr (set_lock g (Some t)) t (set_pc th (PSend h 0)))
@@ -246,10 +270,12 @@ Fixpoint nsent (w : list event) : N :=
    first / in transmission order *)
 Definition exch_mid (c : cfg) (t : tid) (n h : N) (q : treq) : list event :=
   if is_stale c n then [Rcvd t (stale_frame n h q)] else [].
+Definition exch_acks (t : tid) (n : N) (q : treq) : list event :=
+  repeat (Rcvd t (ack_frame n)) (q_depth q).
 Definition exch_nf (c : cfg) (t : tid) (k : nat) (s h : N) (q : treq) (n : N) : list event :=
-  Rcvd t (bmc_reply n h q) :: exch_mid c t n h q ++ [Sent t k s h q].
+  Rcvd t (bmc_reply n h q) :: exch_mid c t n h q ++ exch_acks t n q ++ [Sent t k s h q].
 Definition exch_tx (c : cfg) (t : tid) (k : nat) (s h : N) (q : treq) (n : N) : list event :=
-  Sent t k s h q :: exch_mid c t n h q ++ [Rcvd t (bmc_reply n h q)].
+  Sent t k s h q :: exch_acks t n q ++ exch_mid c t n h q ++ [Rcvd t (bmc_reply n h q)].
 
 (* the BMC sends at most one unrelated frame per datagram: max_retries must allow
    reading past it *)
